@@ -105,6 +105,10 @@ def stepIrun (env : List Val) (ienv : List IVal) : IStmt → Option (List Val ×
         some (env ++ [r], ienv)
       else none
   | .reg _ | .memW _ _ => none     -- handled by `runX`
+  | .dfltAssign x _ => do
+      -- a default only applies where nothing was assigned: the signal already has a value (declaration, earlier default), so nothing changes
+      let _ ← env[x]?
+      some (env, ienv)
   | .resetAssign x e => do
       -- sequential semantics: the variable simply takes the new value (alias caches are not part of it - that is the point)
       let v ← evalE env e
@@ -300,6 +304,18 @@ def stepI (X : XState) : IStmt → Option XState
       let (ns, r) := mkNode ns (.op2 o' a b)
       let B := X.core
       some { X with core := { B with nodes := ns, sigs := B.sigs ++ [{ ty := .bit, driver := r, initScope := curScopeId B }] } }
+  | .dfltAssign x d => do
+      -- `Bit::operator=(const BitDefault&)` (Bit.cpp:147-156): Node_Default(in = current driver, default = d), then an ordinary (conditional)
+      -- assignment of that node. DefaultValueResolution visits the Node_Defaults in creation order: the signal's first default (if it was
+      -- declared through one) is resolved to its default value first, after which the cone of this node's input no longer leads back to
+      -- itself - it is replaced by its input: a no-op (`Node.sig`).
+      let s ← X.core.sigs[x]?
+      if s.ty = .bit ∧ d.length = 1 then
+        let (ns, _) := mkNode X.core.nodes (.const d)
+        let (ns, dn) := mkNode ns (.sig s.driver)
+        let (ns, inn) := condMux X.core ns s true dn
+        some { X with core := { X.core with nodes := ns, sigs := X.core.sigs.set x { s with driver := inn } } }
+      else none
   | .resetAssign x e => do
       -- `x.resetNode()` (BitVector.cpp:238-254): node, width, policy and every alias cache are dropped, `m_initialScopeId` becomes the
       -- current scope; `x = e` then creates a fresh node driven by `e` without a multiplexer. Re-creating a variable that was declared
